@@ -18,8 +18,8 @@
 EXTENDS Integers, Sequences, FiniteSets, SequencesExt, Json, IOUtils, TLC
 
 Recs == ndJsonDeserialize(IOEnv.TRACE_FILE)
-VARIABLES i, j, cfg, nruns, ref, refbad, bad
-vars == <<i, j, cfg, nruns, ref, refbad, bad>>
+VARIABLES i, j, cfg, nruns, viaset, ref, refbad, bad
+vars == <<i, j, cfg, nruns, viaset, ref, refbad, bad>>
 Unless(ok, clause) == IF ok THEN {} ELSE {clause}
 H == Recs[i]
 E == H.events[j]
@@ -37,6 +37,7 @@ FailsOptimize(e) ==
              Unless(e.raised = "", IF nruns > 0 THEN "C08.crash" ELSE "C07.crash_fresh")
              \cup Unless(e.raised # "" \/ nruns > 0 \/ same, "C07.equal")           \* two fresh runs of one key differ
              \cup Unless(e.raised # "" \/ nruns = 0 \/ same, "C08.equal")           \* a used instance differs from a fresh one
+             \cup Unless(e.raised # "" \/ ~viaset \/ same, "C18.runequal")          \* a run after set_config_parameters(d) differs from ctor(Config(**d))
              \cup Unless(e.caller_same, "C09.cfg")
              \cup Unless(e.task_same, "C09.task")
              \cup Unless(e.earlier_same, "C08.immutable")
@@ -52,7 +53,7 @@ Fails(e) ==
       [] e.ev = "OptimizeBadCall" -> Unless(e.raised \in {"ValueError", "ValidationError"} /\ e.steps = 0, "C06.reject")
       [] OTHER -> {}
 
-Init == i = 1 /\ j = 1 /\ cfg = 0 /\ nruns = 0 /\ ref = {} /\ refbad = {} /\ bad = {}
+Init == i = 1 /\ j = 1 /\ cfg = 0 /\ nruns = 0 /\ viaset = FALSE /\ ref = {} /\ refbad = {} /\ bad = {}
 
 Step == /\ i <= Len(Recs) /\ j <= Len(H.events)
         /\ bad' = bad \cup {<<H.id, cl>> : cl \in Fails(E)}
@@ -63,16 +64,19 @@ Step == /\ i <= Len(Recs) /\ j <= Len(H.events)
         /\ nruns' = CASE E.ev = "Construct" -> 0
                       [] E.ev = "Optimize" /\ E.raised = "" /\ cfg # 0 -> nruns + 1
                       [] OTHER -> nruns
+        /\ viaset' = CASE E.ev = "Construct" -> FALSE
+                       [] E.ev = "SetConfig" /\ E.raised = "" -> TRUE
+                       [] OTHER -> viaset
         /\ ref' = IF E.ev = "Ref" /\ E.raised = "" THEN ref \cup {<<<<E.cfgid, E.t>>, E.digest>>} ELSE ref
         /\ refbad' = IF E.ev = "Ref" /\ E.raised # "" THEN refbad \cup {<<E.cfgid, E.t>>} ELSE refbad
         /\ j' = j + 1 /\ UNCHANGED i
 
 NextHist == /\ i <= Len(Recs) /\ j = Len(H.events) + 1
-            /\ i' = i + 1 /\ j' = 1 /\ cfg' = 0 /\ nruns' = 0 /\ ref' = {} /\ refbad' = {} /\ UNCHANGED bad
+            /\ i' = i + 1 /\ j' = 1 /\ cfg' = 0 /\ nruns' = 0 /\ viaset' = FALSE /\ ref' = {} /\ refbad' = {} /\ UNCHANGED bad
 
 Finish == /\ i = Len(Recs) + 1 /\ j = 1
           /\ JsonSerialize(IOEnv.VERDICT_FILE, [consumed |-> Len(Recs), bad |-> SetToSeq(bad)])
-          /\ j' = 2 /\ UNCHANGED <<i, cfg, nruns, ref, refbad, bad>>
+          /\ j' = 2 /\ UNCHANGED <<i, cfg, nruns, viaset, ref, refbad, bad>>
 
 Next == Step \/ NextHist \/ Finish
 Spec == Init /\ [][Next]_vars
